@@ -51,6 +51,41 @@ def hharness(variant="plain"):
     return build.harness("h_hist", variant, extra_flags=fl)
 
 
+def hist_runner():
+    """The extracted model runner with the c10/c20 commands.  Normally the shared runner (vlib.build_model); when
+    another property's fragment does not build at the moment, a private runner is extracted from Model/HistExtract.v
+    alone into scratch (same extraction settings, same prelude/main, only ocaml/cmds/90_hist.ml)."""
+    import subprocess, tempfile
+    if os.environ.get("VERIF_HIST_RUNNER"):
+        return os.environ["VERIF_HIST_RUNNER"]
+    try:
+        m = vlib.build_model()
+        out, _ = vlib.run_lines(m, ["c20 gr | "])
+        if out and not out[0].startswith("unknown"):
+            return m
+    except vlib.CoqError:
+        pass
+    d = os.path.join(build.scratch_root(), "verif-hist-runner")
+    os.makedirs(d, exist_ok=True)
+    lock = vlib.coq_lock()
+    try:
+        vlib.coq_make(["Model/HistExtract.vo"])
+    finally:
+        lock.close()
+    names = open(os.path.join(vlib.COQ, "Extract", "parts", "90_hist.txt")).read().split("names:")[1].split()
+    open(os.path.join(d, "Ex.v"), "w").write("Require Extraction.\nRequire Import ExtrOcamlBasic.\nFrom YV Require Import Model.Externals "
+                                             "Model.ScannerHist Model.HistExtract.\nExtraction \"model.ml\" %s.\n" % " ".join(names))
+    od = os.path.join(build.VERIF, "ocaml")
+    open(os.path.join(d, "driver.ml"), "w").write("open Model\n" + "\n".join(open(f).read() for f in (
+        os.path.join(od, "prelude.ml"), os.path.join(od, "cmds", "90_hist.ml"), os.path.join(od, "main.ml"))))
+    for cmd in (["coqc", "-R", vlib.COQ, "YV", "-w", "-all", "Ex.v"],
+                ["ocamlfind", "ocamlopt", "-inline", "50", "-w", "-a", "-o", "runner", "model.mli", "model.ml", "driver.ml"]):
+        p = subprocess.run(cmd, cwd=d, stdout=subprocess.PIPE, stderr=subprocess.STDOUT, text=True)
+        if p.returncode != 0:
+            raise vlib.CoqError("private model runner: " + p.stdout[-2000:])
+    return os.path.join(d, "runner")
+
+
 def rd(name):
     return open(os.path.join(T, name), "rb").read()
 
@@ -233,7 +268,7 @@ def run(chk):
     if not ok:
         chk.violation("proof", "proof obligations of C10 no longer check: " + log[-1500:], {"log": log[-4000:]}, found_input=False)
     h = hharness()
-    model = os.environ.get("VERIF_HIST_RUNNER") or vlib.build_model()   # (env: development aid, a private runner)
+    model = hist_runner()
     inputs = make_inputs(tier)
     intern = Intern()
     # ---- entry points of the inputs, as the implementation computes them (fresh scanner, both flag settings)
